@@ -5,8 +5,8 @@ from edges_common import run_edges
 from seq_common import replay_seq
 
 PROPERTY = 'C15'
-GEN = ['Stamp', 'LogicCycle']
-PROPS = ['SalsaVerif.Props.C15', 'SalsaVerif.Props.GenLogicCycle', 'SalsaVerif.Props.C15Rev']
+GEN = ['Stamp', 'LogicCycle', 'LogicVerify']
+PROPS = ['SalsaVerif.Props.C15', 'SalsaVerif.Props.GenLogicCycle', 'SalsaVerif.Props.C15Rev', 'SalsaVerif.Props.GenLogicVerify']
 KNOWN = ('fb-participant-after-revalidated-head', 'fix-participant-stale-after-revalidation')
 EXPLANATION = ('Theorems about IterationStamp (translated from src/cycle.rs on every run: increment adds exactly one to the iteration byte, '
                'never carries into the cancellation byte, and refuses at MAX_ITERATIONS = 200) and about the head loop of the Lean cycle '
